@@ -807,13 +807,14 @@ fn c12_states(rep: &mut Report) {
         }
     }
     // quaternion normalisation
-    let comps = [0.0, 1e-200, 1e-10, 4e-10, 6e-10, 1e-9, 2e-9, 1e-5, 1.0, -1.0, 3.0, 1e100, 1e160, -1e200];
+    // (the band around sqrt(f64::MAX) = 1.34e154: one square fits, the sum of four does not)
+    let comps = [0.0, 1e-200, 1e-10, 4e-10, 6e-10, 1e-9, 2e-9, 1e-5, 1.0, -1.0, 3.0, 1e100, 0.7e154, 1e154, -1.3e154, 1.4e154, 1e160, -1e200];
     for &x in &comps {
         for &y in &comps {
-            for &w in &[0.0, 1.0, -2.0, 1e-10, 1e160] {
+            for &(z, w) in &[(0.0, 0.0), (0.0, 1.0), (0.0, -2.0), (0.0, 1e-10), (0.0, 1e160), (1e154, 1e154), (-0.7e154, 0.7e154), (1.3e154, 0.0)] {
                 rep.count("evaluations", 1);
-                let q = [x, y, 0.0, w];
-                let r = guarded(|| SO3State::new(x, y, 0.0, w).normalise());
+                let q = [x, y, z, w];
+                let r = guarded(|| SO3State::new(x, y, z, w).normalise());
                 let det = json!({"input_xyzw": q});
                 let true_norm = {
                     let m = q.iter().fold(0.0f64, |m, c| m.max(c.abs()));
